@@ -2,6 +2,8 @@
 //! See /verif/DESIGN.md.
 
 mod c12;
+mod c14;
+mod c15;
 mod core;
 mod env;
 mod meshgen;
@@ -101,6 +103,8 @@ fn main() {
 
     let code = match prop.as_str() {
         "C12" => runner::check(&c12::C12, &opt),
+        "C14" => runner::check(&c14::C14, &opt),
+        "C15" => runner::check(&c15::C15, &opt),
         _ => {
             eprintln!("unknown or unclaimed property {}", prop);
             2
